@@ -406,7 +406,37 @@ def make_hooks(env, name):
     return on_state, on_edge
 
 
+def judge_stateful_then_functional(name, seed):
+    """the functional observation of a state does not depend on earlier use of the stateful interface of the same
+    environment: reset / step / read the observation, change the current state object in place (the library's own
+    in-place turn), then ask functional_observation about that object"""
+    from gym_gridverse.action import Action
+    from gym_gridverse.envs.transition_functions import transition_function_registry as TF
+
+    from .. import envs
+
+    env = envs.fresh(name, seed)
+    twin = envs.fresh(name, seed)
+    env.reset()
+    for i in range(3):
+        env.observation
+        TF['turn_agent'](env.state, Action.TURN_LEFT)
+        k = sdesc(env.state)
+        env._rng = ChoiceRng([])
+        twin._rng = ChoiceRng([])
+        got = sdesc(env.functional_observation(env.state))
+        want = sdesc(twin.functional_observation(mkstate(k)))
+        if got != want:
+            return (f'{name}: functional_observation(env.state), asked after env.observation was read and the state object was turned in '
+                    f'place, differs from the observation of a freshly built equal state')
+        env.set_seed(seed + i)
+        env.step(env.action_space.actions[i % len(env.action_space.actions)])
+    return None
+
+
 def replay(case):
+    if case['kind'] == 'stateful_functional':
+        return judge_stateful_then_functional(case['config'], case['seed'])
     if case['kind'] == 'job':
         return dyn.replay_job(case, _worker)
     if case['kind'] == 'reach':
@@ -460,6 +490,10 @@ def run(rep, tier, seed):
         names, init_limit, max_states, gcap = [n for n, _ in configs.all_configs()], 1000, 60000, None
     rs, rt = dyn.run_reach(rep, names, init_limit, max_states, make_hooks, replay, 'history_independent_on_reachable_graph',
                            group_cap=gcap, lineages=3)
+    for name in configs.SMALL + ['four_rooms.7x7']:
+        m = judge_stateful_then_functional(name, seed + 2)
+        if m:
+            rep.violation({'kind': 'stateful_functional', 'config': name, 'seed': seed + 2, 'sig': {'part': 'stateful_then_functional'}}, m)
     rep.sample({'kind': 'history', 'seq': [7, 9, 8, 7], 'prologue': True})
     rep.assume('aliasing of objects without instance state (Floor, Wall, MovingObstacle) is not counted as sharing a mutable '
                'component; observations may share cell objects with the state (only modification is forbidden)')
